@@ -358,6 +358,11 @@ def hostile_palette():
             ('memoryview', memoryview(b'abcdef')),
             ('fraction', fractions.Fraction(7)),
             ('decimal', decimal.Decimal(7)), ('float', 7.0), ('int', 7)]
+    # text that LOOKS like a number (int() / float() would parse it)
+    out += [('numstr', '7'), ('numstr', '1.5'), ('numstr', ' 3 '),
+            ('numstr', '1e3'), ('numstr', '1_000'), ('numstr', 'nan'),
+            ('numstr', 'inf'), ('numbytes', b'2'),
+            ('numbytes', bytearray(b'4'))]
     out += [('none', None), ('tuple', ()), ('tuple', (1, 2)),
             ('list', [1]), ('dict', {}), ('plain', Plain()),
             ('index', Indexable(3)), ('ordered', Ordered(3)),
